@@ -90,9 +90,12 @@ def run(rep, drv):
 	# normal demand: integral definition, r(Q), approximations (SciPy side, labelled tests)
 	for k in range(150 if th else 25):
 		h = rng.choice([0.5, 1, 2]); p = rng.choice([5, 14, 40]); K = rng.choice([4, 20, 100]); lam = rng.choice([20, 100, 1300]); sd = lam * rng.choice([0.1, 0.2]) ; L = rng.choice([1 / 12, 0.5, 1, 2])
+		cheap_stockouts = rng.random() < .35
+		if cheap_stockouts:
+			h = rng.choice([3, 10, 24]); p = rng.choice([0.5, 1, 2])          # holding dearer than stockouts: r(Q) well below the mean, r+Q near it
 		mu = lam * L; sigma = sd * math.sqrt(L)
 		case = {'h': h, 'p': p, 'K': K, 'mean': lam, 'sd': sd, 'L': L}
-		rep.case('normal', case, nontrivial=True)
+		rep.case('normal', case, nontrivial=True); rep.count('normal:' + ('p<h' if cheap_stockouts else 'p>h'))
 		bad = []
 		try:
 			with warnings.catch_warnings():
@@ -115,14 +118,22 @@ def run(rep, drv):
 					bad.append('r_q_cost %r but (K lambda + integral of g over (r, r+Q]) / Q = %r' % (cst, ref))
 				if abs(float(newsvendor_normal_cost(r, h, p, mu, sigma)) - g(r)) > 1e-8 * max(1, g(r)):
 					bad.append('newsvendor_normal_cost != h nbar + p n')
-				rr = rq.r_q_optimal_r_for_q(Q, h, p, lam, sd, L)
-				if abs(g(rr) - g(rr + Q)) > 1e-5:
-					bad.append('r(Q)=%r does not equalise g(r)=%r and g(r+Q)=%r' % (rr, g(rr), g(rr + Q)))
-				c0 = rq.r_q_cost(rr, Q, h, p, K, lam, sd, L)
-				for dr in (-0.05 * Q, 0.05 * Q, -0.3 * Q, 0.3 * Q):
-					if rq.r_q_cost(rr + dr, Q, h, p, K, lam, sd, L) < c0 - 1e-7 * max(1, c0):
-						bad.append('r(Q) does not minimise the cost over r')
-						break
+				# r(Q) for the Q above and for small, large and very large batches (in units of sigma and of mu)
+				for Qx in (Q, sigma * rng.choice([0.3, 1, 3]), sigma * rng.choice([10, 25, 60]), sigma * rng.choice([100, 400]), mu * rng.choice([2, 5])):
+					if Qx <= 0: continue
+					rr = rq.r_q_optimal_r_for_q(Qx, h, p, lam, sd, L)
+					if abs(g(rr) - g(rr + Qx)) > 1e-5 * max(1, g(rr)):
+						bad.append('Q=%r: r(Q)=%r does not equalise g(r)=%r and g(r+Q)=%r' % (Qx, rr, g(rr), g(rr + Qx)))
+					c0 = rq.r_q_cost(rr, Qx, h, p, K, lam, sd, L)
+					for dr in (-0.05 * Qx, 0.05 * Qx, -0.3 * Qx, 0.3 * Qx, -sigma, sigma):
+						if rq.r_q_cost(rr + dr, Qx, h, p, K, lam, sd, L) < c0 - 1e-7 * max(1, c0):
+							bad.append('Q=%r: r(Q)=%r does not minimise the cost over r (r %+g is cheaper)' % (Qx, rr, dr))
+							break
+				r3, Q3 = rq.r_q_eoqb_approximation(h, p, K, lam, sd, L)
+				if abs(Q3 - math.sqrt(2 * K * lam * (h + p) / (h * p))) > 1e-9 * Q3 or abs(g(r3) - g(r3 + Q3)) > 1e-5 * max(1, g(r3)):
+					bad.append('EOQB approximation wrong: r=%r Q=%r g(r)=%r g(r+Q)=%r' % (r3, Q3, g(r3), g(r3 + Q3)))
+				if cheap_stockouts:
+					raise StopIteration          # the remaining approximations assume p > h (their defining equations have no solution otherwise)
 				# approximations solve their own defining equations
 				r1, Q1, c1 = rq.r_q_eil_approximation(h, p, K, lam, sd, L)
 				n1 = sigma * (norm.pdf((r1 - mu) / sigma) - (r1 - mu) / sigma * (1 - norm.cdf((r1 - mu) / sigma)))
@@ -131,9 +142,6 @@ def run(rep, drv):
 				r2, Q2 = rq.r_q_eoqss_approximation(h, p, K, lam, sd, L)
 				if abs(Q2 - math.sqrt(2 * K * lam / h)) > 1e-9 * Q2 or abs(norm.cdf((r2 - mu) / sigma) - p / (p + h)) > 1e-9:
 					bad.append('EOQ+SS approximation wrong')
-				r3, Q3 = rq.r_q_eoqb_approximation(h, p, K, lam, sd, L)
-				if abs(Q3 - math.sqrt(2 * K * lam * (h + p) / (h * p))) > 1e-9 * Q3 or abs(g(r3) - g(r3 + Q3)) > 1e-5:
-					bad.append('EOQB approximation wrong')
 				# loss-function approximation: Q = sqrt(2[K lambda + (h+p) n2(r)]/h), n(r) = hQ/(h+p), with n, n2 the normal first/second-order losses
 				r4, Q4 = rq.r_q_loss_function_approximation(h, p, K, lam, sd, L)
 				z4 = (r4 - mu) / sigma
@@ -142,6 +150,8 @@ def run(rep, drv):
 				if abs(n1_4 - h * Q4 / (h + p)) > 1e-4 * max(1, n1_4) or abs(Q4 - math.sqrt(2 * (K * lam + (h + p) * n2_4) / h)) > 1e-4 * max(1, Q4):
 					bad.append('loss-function approximation (r=%r, Q=%r) does not satisfy its defining equations: n(r)=%r vs hQ/(h+p)=%r; Q vs %r' % (
 						r4, Q4, n1_4, h * Q4 / (h + p), math.sqrt(2 * (K * lam + (h + p) * n2_4) / h)))
+		except StopIteration:
+			pass
 		except Exception as e:
 			import traceback
 			bad.append('raised %s %s' % (err_enum(e), traceback.format_exc()[-200:]))
